@@ -18,7 +18,7 @@ import (
 
 // C18 — options act only on their own aspect, in any order, on every Evaluate.
 
-const c18Rule = "option lists over {WithTagName(bexpr|alt), WithHookFn(identity|unwrap|constant|nil), WithUnknownValue(v), WithMaxExpressions(0|>=N|small)} with repeats, nil options " +
+const c18Rule = "option lists over {WithTagName(bexpr|alt), WithHookFn(identity|unwrap|constant|unwrap+upper-casing strings|nil), WithUnknownValue(v), WithMaxExpressions(0|>=N|small)} with repeats, nil options " +
 	"and all permutations; structs tagged under both tag names, map values wrapped in the hook's wrapper struct; several Evaluate calls per evaluator, the caller overwriting and re-using its option slice (spread into CreateEvaluator) between them; oracles: " +
 	"permutations agree, last of repeated options wins, neutral settings equal their absence, the unwrap hook makes wrapped documents behave as unwrapped ones and agrees " +
 	"with the reference interpreter applying the hook after every step, later calls equal the first; non-trivial = >= 2 distinct non-neutral options whose aspect the " +
@@ -45,6 +45,8 @@ func (s optSpec) option() bexpr.Option {
 			return bexpr.WithHookFn(unwrapHook)
 		case ref.HookConst:
 			return bexpr.WithHookFn(constHook)
+		case ref.HookShout:
+			return bexpr.WithHookFn(shoutHook)
 		}
 		return bexpr.WithHookFn(nil)
 	case "unknown":
@@ -363,7 +365,7 @@ func TestC18_Options(t *testing.T) {
 			case 0, 1:
 				specs = append(specs, optSpec{Kind: "tag", Tag: []string{uni.AltTag, "bexpr", uni.AltTag}[rapid.IntRange(0, 2).Draw(t, "tag")]})
 			case 2, 3:
-				specs = append(specs, optSpec{Kind: "hook", Hook: []int{2, 0, 1, 2, 3}[rapid.IntRange(0, 4).Draw(t, "hook")]})
+				specs = append(specs, optSpec{Kind: "hook", Hook: []int{2, 0, 1, 2, 3, 4}[rapid.IntRange(0, 5).Draw(t, "hook")]})
 			case 4, 5:
 				k := uni.ScalarKinds[rapid.IntRange(0, len(uni.ScalarKinds)-1).Draw(t, "uk")]
 				specs = append(specs, optSpec{Kind: "unknown", Unknown: uni.GenScalar(t, &uni.Type{K: k}, uni.Profile{})})
@@ -375,7 +377,7 @@ func TestC18_Options(t *testing.T) {
 		}
 		if hookFocus {
 			// the value-transformation hook is what this case is about: make sure it is the effective one
-			specs = append(specs, optSpec{Kind: "hook", Hook: int(ref.HookUnwrap)})
+			specs = append(specs, optSpec{Kind: "hook", Hook: []int{int(ref.HookUnwrap), int(ref.HookShout)}[rapid.IntRange(0, 1).Draw(t, "focusHook")]})
 		}
 		g := gen.NewExprGen(t, root, effective(specs).Tag)
 		var e bx.Expr
@@ -418,7 +420,7 @@ func TestC18_Options(t *testing.T) {
 		}
 		c := &c18Case{EvalCase: *newEvalCase(text, e, root, Opts{}), Specs: specs, AliasHead: aliasHead}
 		eff := effective(specs)
-		if eff.Hook == int(ref.HookUnwrap) {
+		if eff.Hook == int(ref.HookUnwrap) || eff.Hook == int(ref.HookShout) {
 			cnt := 0
 			w := wrapMapValues(t, root, &cnt)
 			if cnt > 0 {
@@ -432,7 +434,7 @@ func TestC18_Options(t *testing.T) {
 		if eff.Tag != "" {
 			nonNeutral++
 		}
-		if (eff.Hook == int(ref.HookUnwrap) && c.Unwrapped != nil) || eff.Hook == int(ref.HookConst) {
+		if (eff.Hook == int(ref.HookUnwrap) && c.Unwrapped != nil) || eff.Hook == int(ref.HookConst) || eff.Hook == int(ref.HookShout) {
 			nonNeutral++
 		}
 		if eff.HasUnknown {
